@@ -319,6 +319,9 @@ static void caseMesh(const std::string& cls, const std::vector<double>& v) {
 }
 
 static void replayLine(const std::string& line);
+static const char* DEEP_WITNESS[2] = {
+    "I p.col.ell_ell deep_witness 3fefd7d303a99a8b 3f9a4c0b6a74b205 bfb8744f31b38382 bf94c9d1a36190a1 3feff10d4ef5be5b 3fad1dc853fb4cc4 3fb8c89867b825e4 bfabfb0b66b5af2c 3fefcd386f4483a1 3fce94b83118f0f8 3ff7f53b644d7719 bfc9baca33445a44 3fe7e135f733021a bfd8584700a30dfa bfe17b2cf9c64621 bfe1076985aa3bdb bfeaaf71f062bbbe bfc2b8e842ab661a bfd99843bf889958 3fd9974e4961db37 bfea642d263eb786 3fe004ebeab69b3c bfb5508926334120 bfee3ca73f78a86b 3ffc9987ef154043 3ffc4ed994b4ccc1 3ff7904e5f960a1a 3ffe49ad1fd96397 3fe0b6391163193e 3ffcad52b218a638",
+    "I p.col.ell_ell deep_witness 3feff424c7bb47d1 bfaa5158d46794ab 3f9033df2f16cb30 3faa551f10edaf1f 3feff52672d3005b bf573c10651a4f18 bf901b44f4403910 3f624459b6bb37e1 3feffef759780463 bfde0cbdc51d55f8 3fe1addd81a3fa61 3ff40b0b8199e47e bfd1968b82199c1e bfee679494bb6f2c 3fc2db713dce7894 3fe4f8eb0f6f3240 bfd305aa40f34a07 bfe6382922198be6 3fe68346bab059cd bfb821cbf317fbb4 3fe68a5eef6c09b8 bff9a08d9e410180 4001881088804977 3ffada41004525f6 3ff7d702a3183dca 3fff307404083b56 3fe07c71267e4f86 3ff654f974f6e1e4 3ff747f8b550477d 3fe3fcd65fe8aed0"};
 static const char* REGION6_WITNESS =
     "I p.col.mesh region6_witness 3ff0000000000000 40ebb66000000000 3ff0000000000000 3fd6a867414ec880 3fb327ddccbc58f0 bfedd4e170eb6c21 bfc31c1f6f7f1b8d 3fefa2104c0bcae3 3f9731429f1f3094 3fed8b31705d49df 3fc0c9deba692144 3fd71cec325ae402 bffdf6b052f5c0e2 bff6ec364ceb9af4 c006552e1615c184 3feff642719451da 3f9a3003294844c1 bfa5400df4df31b0 bf9a43b5bc2cec15 3feffd4c58f7efd4 bf54f3dacc1b78fc 3fa539f9425e3336 3f632f3e1e402980 3feff8ef3808c33e bff594d8acf28b5f bff073b0a6a5e99f bffb6ea729595b65 3fe96542423a58f6";
 
@@ -424,7 +427,7 @@ static void degenerate(vh::Rng& g, long n) {
         // ellipsoid pairs in arbitrary relative placement (mostly deep interpenetration) and ellipsoid/sphere likewise
         for (int k = 0; k < 6; ++k) genEllEll(g, "random_placement");
         // sphere / mesh witness of the point-triangle region-6 defect (found by the generic stream at seed 1)
-        if (it == 0) replayLine(REGION6_WITNESS);
+        if (it == 0) { replayLine(REGION6_WITNESS); replayLine(DEEP_WITNESS[0]); replayLine(DEEP_WITNESS[1]); }
         // identity frames
         { std::vector<double> v; pushX(v, Transform()); push3(v, Vec3(-0.5, 0, 0)); v.push_back(1); caseHsSph("identity_frame", v); }
         { std::vector<double> v; pushX(v, Transform()); pushX(v, Transform(Vec3(-0.5, 0, 0))); push3(v, Vec3(1, 2, 3)); caseHsEll("identity_frame", v); }
